@@ -47,7 +47,10 @@ impl FileStorage {
     }
 
     fn apply_wal(file: &mut File, wal: &mut WriteAheadLog) -> Result<(), DbError> {
-        for record in wal.records()? {
+        // The records are undo information: they must be applied from the
+        // newest to the oldest so that regions modified several times in a
+        // transaction end up with their original (oldest) content.
+        for record in wal.records()?.into_iter().rev() {
             Self::apply_wal_record(file, record)?;
         }
 
@@ -139,7 +142,7 @@ impl StorageData for FileStorage {
             Self::read_impl(&self.file, new_len, &mut buffer)?;
             self.wal.insert(new_len, &buffer)?;
         } else {
-            self.wal.insert(new_len, &[])?;
+            self.wal.insert(current_len, &[])?;
         }
 
         self.file.set_len(new_len)?;
@@ -148,6 +151,10 @@ impl StorageData for FileStorage {
     }
 
     fn write(&mut self, pos: u64, bytes: &[u8]) -> Result<(), DbError> {
+        if bytes.is_empty() {
+            return Ok(());
+        }
+
         let current_len = self.len();
         let end = pos + bytes.len() as u64;
         let mut buffer = vec![0_u8; (std::cmp::min(current_len, end) - pos) as usize];
